@@ -35,7 +35,7 @@ class Contract:
                  raises=None, cases=None, split_len=None, loops=None, inline=(), use=(),
                  serves=(), modifies=None, ghost=None, build=None, pure=False, exc_ensures=None,
                  note='', old=(), assume_only=False, result_type=None, abstract_calls=None,
-                 result_cases=None, tactics=(), opaque=(), type_cases=(), split_on=(), mutates=(), options=None):
+                 result_cases=None, tactics=(), opaque=(), type_cases=(), split_on=(), mutates=(), options=None, yield_ensures=(), alias=None):
         self.qual = qual
         self.params = params or {}          # name -> type
         self.self_type = self_type          # Obj(...) for methods
@@ -66,6 +66,8 @@ class Contract:
         self.split_on = list(split_on)  # boolean expressions; one case each, proved exhaustive (Or valid under requires)
         self.mutates = list(mutates)    # parameters (mutable abstract objects) whose value the function may change
         self.options = dict(options or {})   # engine options for this function (e.g. abstract_vec_split)
+        self.yield_ensures = list(yield_ensures)   # generator: obligations at every yield (locals + yielded_value)
+        self.alias = dict(alias or {})   # callee qualname -> key of the contract to use for it in THIS function
         self.opaque = list(opaque)      # spec functions kept as uninterpreted functions (not unfolded)
         self.scope = _SCOPE[0]
         REGISTRY[qual] = self
